@@ -160,6 +160,11 @@ func solveOne(o *Oblig, t *Trans, opt SolveOpts) *Result {
 	if finish(v, first, out, d) {
 		return r
 	}
+	if want == "sat" {
+		// vacuity guards get the short budget only: an undecided cover is reported, not an alarm
+		r.Verdict = "cover-unknown"
+		return r
+	}
 	// race the remaining solvers (and the first one again with the full budget)
 	type ans struct {
 		v, solver, out string
